@@ -96,6 +96,7 @@ func (e *Engine) translate(u *Unit) {
 			x.sc.assume(x.evalBool(env, cl.expr()))
 		}
 	}
+	x.assumeGlobalInvs()
 	// watch scalar fields of pointer parameters in the pre-state
 	for i, p := range fn.Params {
 		if pv, ok := args[i].(*PtrV); ok && pv.Kind == PObj {
@@ -220,6 +221,11 @@ func (x *Exec) frameGoal(k string, fin *Term) *Term {
 		}
 		return eq(fin, init)
 	}
+	for _, l := range allowed {
+		if len(l.loc.idx) == 0 {
+			return nil // every object's entry is listed
+		}
+	}
 	r := &Term{"r!f", SInt}
 	conds := []*Term{lt(r, alloc0)}
 	var pts []lvLoc
@@ -257,5 +263,14 @@ func (x *Exec) frameCheck(u *Unit, fr *Frame) {
 		if goal := x.frameGoal(k, x.st.heap[k]); goal != nil {
 			x.oblige("frame", k, x.frameProps, goal, "only listed locations of "+k+" change")
 		}
+	}
+}
+
+// assumeGlobalInvs: facts about package-level variables that are set once by init and never reassigned.
+func (x *Exec) assumeGlobalInvs() {
+	for _, gi := range x.eng.specs.GlobalInvs {
+		env := &SpecEnv{x: x, vars: map[string]Val{}, st: x.st, old: x.old, pkgPath: gi.Pkg}
+		x.assumeHere(x.evalBool(env, gi.expr()))
+		x.assumed["GLOBALINV "+gi.Body] = true
 	}
 }
